@@ -171,3 +171,21 @@ Definition ctree_apply (t : tree unit) (e : event) : tree unit :=
 Definition forwarded (e : event) : bool := match e with ENil => false | _ => true end.
 
 Definition client_leaves (t : tree unit) : list path := map fst (CTreeModel.walk_sorted t).
+
+(** * manager.handleGNMIUpdate (manager/manager.go): what the target manager does
+    with one response received from a target: an update is handed to the
+    Update callback, a sync to the Sync callback, an error response and an
+    unset oneof are answered with an error (logged by the caller).  Nothing is
+    dereferenced. *)
+Inductive mgr_event := MUpdate | MSync.
+
+Definition err_mgr_nil : N := 1.
+Definition err_mgr_error : N := 2.
+
+Definition manager_handle (r : resp) : outcome mgr_event :=
+  match r with
+  | RUnset => Err err_mgr_nil
+  | RError => Err err_mgr_error
+  | RSync => Ok MSync
+  | RUpdate _ => Ok MUpdate
+  end.
